@@ -91,6 +91,8 @@ type Ctx struct {
 	expandDepth      int
 	writesParserMemo map[*ssa.Function]bool
 	tokFlowMemo      map[*ssa.Function]*tokFlow
+	soleImpl         map[*types.Named]types.Type
+	constGlobals     map[*ssa.Global]*constGlobal
 	tableDone        bool
 	bceErr           error
 	subst            map[*ssa.Parameter]ssa.Value
